@@ -42,7 +42,13 @@ pub fn close_flow(
         return Err(ContractError::UnauthorizedFlowClose { flow_identifier });
     }
 
-    let amount_to_return = flow.flow_asset.amount.saturating_sub(flow.claimed_amount);
+    // the flow's total is its original amount or, if it was expanded, the latest expanded amount
+    let total_flow_amount = flow
+        .asset_history
+        .values()
+        .next_back()
+        .map_or(flow.flow_asset.amount, |(expanded_amount, _)| *expanded_amount);
+    let amount_to_return = total_flow_amount.saturating_sub(flow.claimed_amount);
 
     // return the flow assets available, i.e. the ones that haven't been claimed
     let messages: Vec<CosmosMsg> = vec![match flow.flow_asset.info {
